@@ -66,6 +66,9 @@ fixed("FX-C05-05", "C05", "189c5fc", "Valid(\"\\\"\\\\uZZZZ\\\"\") was true: the
 fixed("FX-C07-05", "C07", "8eeaac1", "{\"A\":null} into struct{A level; B [7]byte} (level: int8 with UnmarshalText) zeroed B: the TextUnmarshaler decoder stored a pointer-sized nil on null whatever the destination type (noticed by the seeded-change agent for C07, wave 4)")
 fixed("FX-C10-05", "C10", "facc6a6", "MarshalNoEscape(&v) with v unused afterwards, 2..64 goroutines under GC pressure: the value was collected and its memory reused during encoding (race detector: read in vm.Run / AppendInt vs allocation write; 'found pointer to free object'; encodeNoEscape did not pin its argument); present in the original tree")
 fixed("FX-C05-06", "C05", "89981db", "Valid(\",0\"), Valid(\":0\") and Valid(\"{ }]\") were true: Valid inherited the Decoder's skipping of one leading separator and asked More(), which is false for closing brackets, about trailing bytes (was the Valid half of KF-C05-09/-11, KF-C18-V09/V11)")
+fixed("FX-C05-07", "C05", "9277c67", "float, json.Number, interface{} and Token decoding and Compact/Indent accepted 01, 00, -01, 1., -.5, 1.e1, 0. (any [0-9.eE+-] run strconv.ParseFloat takes); -01 into an int was -1; Unmarshal(\"1e400\", &json.Number) and null into json.Number failed in ParseFloat; Compact(\"1e999\") failed (was KF-C05-01 for decoding entry points, KF-C18-01, KF-C18-05, KF-C18-V01, KF-C02-01, KF-C02-02, KF-C16-02 map-key/string positions)")
+fixed("FX-C05-08", "C05", "f9dff7d", "Valid(\"6e5535\") was false: Valid decoded numbers into float64 (was KF-C05-12, KF-C18-V12)")
+fixed("FX-C06-08", "C06", "b22aaf9", "json.UnmarshalContext(ctx, data, &v) with v implementing only UnmarshalJSON([]byte) panicked (interface conversion: not decoder.unmarshalerContext), and Unmarshal into a context-only unmarshaler likewise: the buffer decoder asserted the interface matching the entry point (reported by the seeded-change agent for C06, wave 5; C06 now drives the context entry points with plain, context-only and mixed unmarshaler destinations)")
 fixed("FX-C07-06", "C07", "92cf9c1", "newArrayDecoder read 8 bytes from a fresh zero value of the element type: out of bounds for [N]uint8 and other elements smaller than a pointer (-asan: use-after-poison in decoder.newArrayDecoder on the first decode into such an array; found by the thorough tier's asan variant)")
 fixed("FX-C16-02", "C16", "722e84b", "\"16.0\", \"1e2\", \"0.5\" into an integer stored the digit prefix: NewDecoder(\"16.0\").Decode(&uint8) = nil, 16; {\"1.5\":true} into map[int]bool stored key 1; {\"v\":\"1e2\"} with ,string stored 1; Unmarshal reported a syntax error at the leftover (was KF-C16-03 fraction/exponent classes, KF-C09-01, KF-C02-04, KF-C02-04b)")
 fixed("FX-C16-03", "C16", "26b55f9", "Unmarshal(\"-\", &int64) = nil, value 0 (was KF-C16-01)")
@@ -92,11 +95,11 @@ STREAM = r"(Valid|Decode(Context|WithOption\(FirstWin\)|\(\d-byte reads\)|\(UseN
 SKIPPERS = r"(Valid|Decode(Context|WithOption\(FirstWin\)|\(\d-byte reads\)|\(UseNumber[A-Za-z,]*\))?:.+|Unmarshal(Context|WithOption\(FirstWin\)):struct\{A\}|Unmarshal:(struct\{\}|struct\{A\}(\(after-options\))?|struct\{N Number\}|\[0\]int|\[1\]iface|RawMessage|Unmarshaler|\[\]RawMessage|map\[string\]Unmarshaler))"
 DECODER = r"(Decode(Context|WithOption\(FirstWin\)|\(\d-byte reads\)|\(UseNumber[A-Za-z,]*\))?:.+)"
 M = "accept-language"
-known("KF-C05-01", "C05", M, ALL15, "ok-vs-err", r"relax=num:parsefloat-grammar",
-      'Unmarshal("01"), ("1."), ("-.5"), ("1.e1") succeed',
-      "internal/decoder/float.go, number.go, interface.go: a number token is [-0-9][0-9.eE+-]* handed to strconv.ParseFloat, whose grammar is wider than RFC 8259",
-      "another number-grammar lenience that strconv.ParseFloat also accepts",
-      "every numeric decoder shares the floatTable scanner; a strict scanner changes behaviour upstream tests and users rely on")
+known("KF-C05-01", "C05", M, SKIPPERS, "ok-vs-err", r"relax=num:parsefloat-grammar",
+      'Unmarshal("062.999e-4", &RawMessage), Unmarshal("[00]", &[0]int{}) and {"unknown":01} into struct{} succeed',
+      "internal/decoder/context.go skipValue, stream.go skipValue: a skipped number is any run of [0-9.eE+-]; decoded numbers are checked against the grammar since 9277c67",
+      "another malformed number inside a skipped value (entry points whose destination skips: RawMessage, Unmarshaler, unknown members, [0]T)",
+      "part of the unvalidated skip scanners (KF-C05-04): they match brackets and quotes only")
 known("KF-C05-02", "C05", M, ALL15, "ok-vs-err", r"relax=str:raw-ctl",
       'Unmarshal("\\"a\\nb\\"") with a raw LF / 0x01 inside the string succeeds',
       "internal/decoder/string.go: the string scanners only look for quote, backslash and NUL",
@@ -132,35 +135,23 @@ known("KF-C05-11", "C05", M, DECODER, "ok-vs-err", r"relax=stream:trailing-after
       'NewDecoder("{ }]") : Decode succeeds and the following More() is false / Decode reports EOF, so the harness\'s one-complete-text protocol takes the text as accepted',
       "internal/decoder/stream.go More() is false for ']' and '}'; a Decoder leaves trailing bytes to the next Decode (Valid, which had the same answer, was repaired in 89981db)",
       "other trailing-garbage acceptances by a drained Decoder", "More() answers the question of the Token-driven loop; the Decoder keeps no container state")
-known("KF-C05-12", "C05", M, "Valid", "err-vs-ok", r"valid-text-rejected:float64-range-number",
-      'Valid("6e5535") is false (encoding/json.Valid: true)',
-      "json.go Valid decodes into interface{}, so a number beyond float64 fails with a range error",
-      "Valid rejecting another valid text that contains an out-of-range number", "Valid would need a non-converting scanner")
 
 # ------------------------------------------------------------------ C18
-C18_VALID = [("01", r"relax=num:parsefloat-grammar", "KF-C05-01"), ("02", r"relax=str:raw-ctl", "KF-C05-02"), ("03", r"relax=nul-terminates", "KF-C05-03"),
+C18_VALID = [("02", r"relax=str:raw-ctl", "KF-C05-02"), ("03", r"relax=nul-terminates", "KF-C05-03"),
              ("04", r"relax=skip:unvalidated", "KF-C05-04"), ("05", r"relax=stream:nul-skipped", "KF-C05-05"), ("10", r"relax=stream:skip-ignores-junk-before-value", "KF-C05-10")]
 for n, ctx, same in C18_VALID:
     known("KF-C18-V" + n, "C18", "util-valid", "Valid", "ok-vs-err", ctx,
           "Valid accepts a text encoding/json.Valid rejects (%s); same root cause as %s" % (ctx, same),
           "json.go Valid is the stream decoder into interface{}; see " + same, "see " + same, "see " + same)
-known("KF-C18-V12", "C18", "util-valid", "Valid", "err-vs-ok", r"valid-text-rejected:float64-range-number",
-      'Valid("6e5535") is false (encoding/json.Valid: true)', "see KF-C05-12", "see KF-C05-12", "see KF-C05-12")
 CI = r"(Compact|Indent)"
-known("KF-C18-01", "C18", "util-reject", CI, "ok-vs-err", r"relax=num:parsefloat-grammar",
-      'Compact/Indent accept "01", "1.", "-.5"', "internal/encoder/compact.go compactNumber / indent.go: number = run of [0-9.eE+-] validated with strconv.ParseFloat",
-      "another number lenience ParseFloat shares", "the same lenient number scanner validates Marshaler output; changing it changes Marshal behaviour")
 known("KF-C18-02", "C18", "util-reject", CI, "ok-vs-err", r"relax=str:raw-ctl",
       'Compact/Indent accept a string with a raw LF', "internal/encoder/compact.go compactString: only quote, backslash, NUL and HTML characters are looked at",
-      "another raw control character inside strings", "as KF-C18-01")
+      "another raw control character inside strings", "behavioural change of the shared scanner design")
 known("KF-C18-03", "C18", "util-reject", CI, "ok-vs-err", r"relax=nul-terminates",
       'Compact(dst, "1\x00x") succeeds', "internal/encoder/compact.go validateEndBuf: NUL sentinel", "acceptances needing an embedded NUL", "sentinel design")
 known("KF-C18-04", "C18", "util-reject", CI, "ok-vs-err", r"relax=compact:str-any-escape",
       'Compact accepts "\"\\[\"" and "\"\\u\""', "internal/encoder/compact.go compactString: a backslash protects the next byte, whatever it is; \\u digits unchecked",
-      "another invalid escape sequence", "as KF-C18-01")
-known("KF-C18-05", "C18", "util-bytes", CI, "err-vs-ok", r"valid-text-rejected:float64-range-number",
-      'Compact(dst, "1e999") fails with a ParseFloat range error', "compactNumber validates with strconv.ParseFloat and treats ErrRange as an error",
-      "rejection of another valid text containing an out-of-range number", "as KF-C18-01")
+      "another invalid escape sequence", "behavioural change of the shared scanner design")
 known("KF-C18-06", "C18", "util-bytes", "Indent", r"bytes-differ:missing-trailing-whitespace", r"buf=(empty|prefilled)",
       'Indent(dst, "[1]   ", "", " ") drops the trailing blanks that encoding/json.Indent keeps',
       "internal/encoder/indent.go: output ends with the value", "another difference that consists only of missing trailing whitespace",
@@ -322,11 +313,6 @@ known("KF-C10-PROD", "C10", "race-detector", r"raceprod", r"race", r"(R|W):\S+ /
       "deliberate upstream design (lock-free fast path); a fix needs atomic slot loads/stores in both packages")
 
 # ------------------------------------------------------------------ C16
-known("KF-C16-02", "C16", "int-decode", None, r"accepts:leading-zero", r"u?int(8|16|32|64|ptr)?:(plain|pointer|map-key|string-tag|stream|map-key-escaped|string-tag-escaped)",
-      'Unmarshal("01", &int) = nil, value 1; {"007":true} into map[uint8]bool', "internal/decoder/int.go, uint.go: digit loop accepts any run of digits", "nothing else (exact class)", "same lenient number scanner as KF-C05-01")
-known("KF-C16-03", "C16", "int-decode", None, r"accepts:non-digit", r"u?int(8|16|32|64|ptr)?:stream",
-      'NewDecoder("1-").Decode(&int) = nil, 1 (the "-" stays in the stream)', "internal/decoder/int.go, uint.go decodeStreamByte stop at the first non-digit; Decoder.Decode does not look at what follows a top-level value (see KF-C05-11)",
-      "nothing else (exact class; the map-key, ,string, fraction and exponent forms were fixed in 722e84b and c9503d0)", "see KF-C05-11")
 
 # ------------------------------------------------------------------ C17
 known("KF-C17-01", "C17", "str-encode", r"DisableNormalizeUTF8", r"raw-u2028/9", r"(value|key):.*u2028/9.*",
@@ -346,12 +332,6 @@ feature_entries("C02", "dec-diff", "KF-C02", DEC, ["ptr2\\+", "array1-ptr-shaped
                 "marshalerP-by-value", "nilable-marshalerV", "omitempty-marshaler", "ptr-to-marshaler", "string-opt-nonscalar", "string-opt-float-or-string", "name-collisions", "tags-zoo",
                 "unmarshaler-types", "ptr-to-container", "iface-nonempty", "recmap", "array0-or-1-plain", "array0-omitempty"])
 D = "dec-diff"
-known("KF-C02-01", "C02", D, None, r"err-vs-ok", r"go:syntax:strconv\.ParseFloat: parsing : invalid syntax @ doc:[a-z-]+(\+prepop)? @ .*",
-      'Unmarshal("null", &json.Number) fails with a ParseFloat error (encoding/json: no-op)', "internal/decoder/number.go: null yields an empty literal that is then validated with ParseFloat",
-      "other documents in which a null meets a json.Number destination", "small, but number.go shares the path with interface{}+UseNumber")
-known("KF-C02-02", "C02", D, None, r"err-vs-ok", r"go:syntax:strconv\.ParseFloat: parsing : value out of range @ doc:[a-z-]+(\+prepop)? @ .*",
-      'Unmarshal("1e400", &json.Number) fails (encoding/json keeps the literal)', "internal/decoder/number.go validates json.Number literals with strconv.ParseFloat and treats ErrRange as an error",
-      "other out-of-float64-range literals into json.Number / UseNumber", "see KF-C05-12")
 known("KF-C02-06", "C02", D, None, r"field-selection:case-insensitive-match", r"(core|feature:.*)",
       '{"C":-1} does not reach the field tagged `json:"c,omitempty"` of an embedded struct; {"B":1} into EmbDeep is not reported as a type error (encoding/json matches case-insensitively)', "internal/decoder/struct.go: case-insensitive lookup is missing for fields promoted from embedded structs (see C15)",
       "any disagreement that disappears when keys are spelled exactly like their fields", "see C15")
